@@ -62,6 +62,26 @@ TRIGGERS = {
  "U-C17": ("C17", "customize_msg rewrites a lifted contract's CosmosMsg::Stargate into CosmosMsg::Any: the stargate module's execute_any is called instead of execute_stargate (needs features stargate + cosmwasm_2_0 and a handler that tells the two apart)"),
  "U-C18": ("C18", "MockApiBech::addr_canonicalize lower-cases its input before decoding: mixed-case spellings (and k -> U+212A) are accepted by canonicalize"),
  "U-C19": ("C19", "StakeKeeper::get_staking_info caches the parameters in a process-wide static: the first App of the process to read them fixes bonded denomination, unbonding time and rate for every later App (needs two Apps with different staking parameters in one process)"),
+ "V-C01": ("C01", "StorageTransaction::remove drops the cache's pending Set (and its log entries) instead of recording a Delete when the key was written in the same cache: a key that existed BEFORE the transaction, written and later removed inside it, survives an Ok transaction with its old value"),
+ "V-C02": ("C02", "StorageTransaction::remove drops the cache's own entry (log untouched) when the key was written earlier in the same cache: reads later in the same transaction fall through to the old value below; the committed state is right"),
+ "V-C03": ("C03", "execute_submsg fills the deprecated Reply data only when the value is non-empty: a successful sub-message whose data is present but EMPTY reaches the reply as None"),
+ "V-C04": ("C04", "WasmMsg::Migrate: the execute-response encoding is applied to the contract's own data BEFORE process_response: data set by a reply below migrate is returned raw"),
+ "V-C05": ("C05", "process_wasm_msg_instantiate moves the attached funds AFTER the instantiate entry point ran: the handler sees funds it does not own yet, and runs although the sender cannot pay (same idea as T-C10, other code shape)"),
+ "V-C06": ("C06", "MergeOverlay skips 'dangling' tombstones with an ascending-only comparison: in a DESCENDING range a tombstone the base iterator has not reached yet is thrown away and the removed key comes back (base {a,b,c}, remove c then a)"),
+ "V-C07": ("C07", "range_with_prefix decides 'no upper bound' by namespace.is_empty(): for a raw prefix made only of 0xFF bytes (every segment 65535 x 0xFF) any range with end = None returns nothing"),
+ "V-C08": ("C08", "register_contract checks for an existing contract only on the salted path: with a custom AddressGenerator whose unsalted address is occupied, a second contract is created on the first one's key space"),
+ "V-C09": ("C09", "BankQuery::Balance looks the denomination up by position without comparing it: asking for a denomination the account does not hold returns the next greater coin it holds"),
+ "V-C10": ("C10", "App::wasm_sudo without its outer cache (written against C10; what it breaks is top-level atomicity: the effects of a failed wasm_sudo tree are committed, and queries then faithfully show that committed state)"),
+ "V-C11": ("C11", "same site as V-C08: the duplicate-address check only guards instantiate2; a custom AddressGenerator returning a taken address lets an unsalted instantiate overwrite the live contract's record"),
+ "V-C12": ("C12", "WasmMsg::Migrate saves the ContractData copy loaded before migrate ran also on success: admin changes / further migrations of the same contract made by messages emitted from its migrate entry point are undone"),
+ "V-C13": ("C13", "verify_response stops checking events at the first event WITHOUT attributes (break instead of continue): a malformed event after an attribute-less one is accepted"),
+ "V-C14": ("C14", "Undelegate computes payout_at from the block time truncated to whole seconds: with sub-second block times an unbonding is paid up to just under a second before the period ends"),
+ "V-C15": ("C15", "get_rewards_internal floors credited and uncredited rewards separately: when the fractional parts sum to one or more the pending reward shown is one token below what the withdrawal pays"),
+ "V-C16": ("C16", "update_rewards' early-return guard compares whole seconds: a slash in the same second as (but nanoseconds after) the last reward calculation scales the stake before the open interval is settled, so accrued rewards shrink by (1-p) (needs sub-second steps and stakes around 10^12)"),
+ "V-C17": ("C17", "WasmKeeper::send skips the bank transfer when all attached coins are zero-amount: the configured bank module never sees (and cannot reject) the implied BankMsg::Send of execute/instantiate with funds [0 x]"),
+ "V-C18": ("C18", "MockApiBech::addr_humanize gained a length guard with < instead of <=: canonical addresses of exactly 64 bytes are refused (and so is validation of their encoding)"),
+ "V-C19": ("C19", "RouterQuerier::raw_query formats the parse error of a malformed query request with {:?}: the error text handed back (also to contracts) contains the captured backtrace, i.e. depends on RUST_BACKTRACE and the call stack"),
+ "V-C20": ("C20", "ContractWrapper::with_checksum keeps the FIRST checksum (get_or_insert): only visible when with_checksum is applied twice with different values, which no subset / permutation of distinct steps does"),
  "U-C20": ("C20", "AppBuilder::new_custom starts from a literal block whose time lacks the sub-second part of mock_env().block: apps from new_custom / custom_app without with_block start 879305533 ns earlier than App::default()"),
 }
 
@@ -69,7 +89,7 @@ def main(logs):
     res = {}
     for lg in logs:
         for line in open(lg):
-            m = re.match(r"^([STU]-C\d+) (\S+)(?: (.*))?$", line.strip())
+            m = re.match(r"^([STUV]-C\d+) (\S+)(?: (.*))?$", line.strip())
             if not m: continue
             sid, key, rest = m.group(1), m.group(2), m.group(3) or ""
             r = res.setdefault(sid, {"checks": {}, "verified": {}})
@@ -104,7 +124,7 @@ def main(logs):
         json.dump(meta, open(os.path.join(d, "meta.json"), "w"), indent=1)
         rows.append((sid, prop, "yes" if prop in detected else ("NO" if r["checks"] else "not run"), ", ".join(detected), trig))
     with open(os.path.join(ROOT, "seeded", "README.md"), "w") as f:
-        f.write("# Seeded property-breaking changes (from sub-agents)\n\nS-* = round 1, T-* = round 2, U-* = round 3 (from round 2 on the sub-agent was told the earlier changes as 'already taken'). Each directory holds `patch.diff` (apply with `git -C /repo apply`), the demonstration test `seed_demo.rs`, the sub-agent's `NOTES.md` and `meta.json`.\nAll were re-verified with `tools/selftest.sh` on a scratch copy of /repo: the baseline suite passes with the change, the demonstration passes without and fails with it.\n\n| seed | breaks | own check detects | all quick checks that fail | needs |\n|---|---|---|---|---|\n")
+        f.write("# Seeded property-breaking changes (from sub-agents)\n\nS-* = round 1, T-* = round 2, U-* = round 3, V-* = round 4 (from round 2 on the sub-agent was told the earlier changes as 'already taken'). Each directory holds `patch.diff` (apply with `git -C /repo apply`), the demonstration test `seed_demo.rs`, the sub-agent's `NOTES.md` and `meta.json`.\nAll were re-verified with `tools/selftest.sh` on a scratch copy of /repo: the baseline suite passes with the change, the demonstration passes without and fails with it.\n\n| seed | breaks | own check detects | all quick checks that fail | needs |\n|---|---|---|---|---|\n")
         for row in rows:
             f.write("| %s | %s | %s | %s | %s |\n" % row)
     print("\n".join("%s %s own=%s all=[%s]" % r[:4] for r in rows))
